@@ -57,3 +57,14 @@ Proof.
     destruct ((0 + n + o <=? usize_max) && (0 + n + o <=? s_size st)) eqn:E2; [apply mret_inv in E as ([= -> ->] & _); split; [done|]; eexists _, _, _, _; split; [done|lia]|].
     replace ((0 + n <=? s_size st) && (0 <=? o)) with true in E by lia. binv E. apply mret_inv in E as ([= -> ->] & _). split; [done|]. eexists _, _, _, _. split; [done|lia].
 Qed.
+(* the same, stated with the counting invariant: in a reachable state, an empty BytesMut that is the only handle on its storage *)
+Theorem sole_empty_reclaims_reachable orcs i s h orc n k o c kd e x' b s1 e1 st : reach orcs i s -> hs s !! h = Some (HM k o 0 c kd) -> sts s !! k = Some st ->
+  refs (hs s) k = 1%nat -> n <= s_size st -> s_size st <= usize_max ->
+  m_try_reclaim orc n (HM k o 0 c kd) s e = OK (x', b) s1 e1 -> b = true /\ exists k1 o1 c1 kd1, x' = HM k1 o1 0 c1 kd1 /\ n <= c1.
+Proof.
+  intros Hr Hx Hs Hrefs Hn Hmax E. pose proof (reach_wf _ _ _ Hr) as [L _]. pose proof (lwf_typed _ _ L _ _ Hx) as Hty.
+  eapply (sole_empty_reclaims orc n k o c kd s e x' b s1 e1 st Hty Hs); try done.
+  destruct kd as [ocr|]; [done|]. destruct Hty as (st0 & Hs0 & Hlv & Hcl & (oc & rc & Hc) & _). rewrite Hs in Hs0. injection Hs0 as <-.
+  pose proof (lwf_st _ _ L _ _ Hs) as Hok. unfold st_ok in Hok. rewrite Hlv, Hc, Hrefs in Hok. exists oc.
+  destruct Hcl as [Hcl|Hcl]; rewrite Hcl in Hok; [destruct Hok as (_ & _ & -> & _)|destruct Hok as (_ & _ & _ & -> & _)]; done.
+Qed.
